@@ -1,1 +1,4 @@
 pub mod c07;
+pub mod c08;
+pub mod c10;
+pub mod capfam;
